@@ -76,6 +76,13 @@ def monitorHist (sc : HScn) (entries : List String) : List (String × String) :=
       m := { m with calls := m.calls.map fun c => if c.k == n2 then { c with hooked := false } else c }
     else if kind == "ret" then
       m := { m with calls := m.calls.map fun c => if c.k == n2 then { c with res := some a3 } else c }
+      if a3 == "TooManyAttempts" then
+        match m.calls.find? (·.k == n2) with
+        | some cl =>
+          let w := (sc.ops[cl.obj]?.map (·.w)).getD 0
+          let delivered := (m.batches.toList.map (fun b => (b.objs.filter (· == cl.obj)).length)).sum
+          if sc.wMaxAtt w == 0 || delivered < sc.wMaxAtt w then m := m.add "C14" "refused-before-max-attempts"
+        | none => pure ()
       if a3 == "panic" then
         m := m.add "C16" (if m.shutdownAt.isSome then "enqueue-after-shutdown-panics" else "enqueue-panics")
         m := m.add "C15" "enqueue-panics-at-shutdown"
@@ -161,6 +168,11 @@ def monitorHist (sc : HScn) (entries : List String) : List (String × String) :=
     else if kind == "cbstart" then
       -- f = [t, cbstart, b, w, objs, atts]
       let objs := objsOf (f.getD 4 "")
+      let atts := objsOf (f.getD 5 "")
+      -- C14: Attempt() never runs ahead of the deliveries (each delivery increments it by exactly one)
+      let delivered (o : Nat) : Nat := (m.batches.toList.map (fun b => (b.objs.filter (· == o)).length)).sum
+      if (objs.zip atts).any (fun (o, a) => a > delivered o || a == 0) then
+        m := m.add "C14" "attempt-count-differs-from-deliveries"
       match m.batches.findIdx? (fun b => b.harnessB.isNone && b.objs == objs) with
       | some i =>
         m := { m with batches := m.batches.modify i fun b => { b with harnessB := some n2, w := some n3 } }
@@ -184,6 +196,9 @@ def monitorHist (sc : HScn) (entries : List String) : List (String × String) :=
     else if kind == "sample" then
       let needs := n2
       let inbuf := n3
+      -- the system is settled: a stop request must have been honoured unless the loop is inside a pause
+      if m.stopAsked && m.started.isSome && !m.paused && !m.expectPause && m.shutdownAt.isNone then
+        m := m.add "C16" "stop-requested-but-not-shut-down"
       -- the system is settled: an effective Pause() must have raised its pause event by now
       if m.expectPause && !m.stopAsked && m.shutdownAt.isNone then
         m := { m with expectPause := false }
